@@ -17,7 +17,7 @@ ID = "C07"
 LEAN_MODULES = ["Barril.Props.C07"]
 DRIVERS = ["drv_intern"]
 DRIVER_EXE = "drv_intern"
-RULE = ("seeded histories (quick 300 x 30 steps; thorough: every sequence of length 4 over a pool of 12 "
+RULE = ("seeded histories (quick 300 x 30 steps; thorough: every sequence of length 4 over a pool of 13 "
         "operations + 5000 random x 30) of: ObtainQuantity in every form (str+category, str only, legacy "
         "spelling, list/tuple form, dict/OrderedDict form, default-unit form, captions None/''/text, malformed "
         "requests of every kind, also through the Scalar/Array constructors), CreateEmpty, CreateDerived, "
@@ -191,12 +191,39 @@ def gen_op(rng, i):
     return dict(k="empty", how=rng.choice(["quantity", "scalar", "array"]))
 
 
+def permuted_twin(rng, o):
+    """the same multi-entry composing request with its entries in another order (dict form or
+    CreateDerived; the twin may switch between the two forms), or None"""
+    if o["k"] == "obtain" and o["u"] is not None and o["u"][0] == "d" and o["c"] is None:
+        items, cap = o["u"][1], o["cap"]
+    elif o["k"] == "derived":
+        items, cap = o["items"], o["cap"]
+    else:
+        return None
+    if len(items) < 2 or len({it[0] for it in items}) != len(items):
+        return None
+    perm = [list(it) for it in items]
+    while perm == [list(it) for it in items]:
+        rng.shuffle(perm)
+    if rng.random() < 0.5:
+        return dict(k="obtain", u=["d", perm, True], c=None, cap=cap, via="obtain")
+    return dict(k="derived", items=perm, cap=cap)
+
+
 def gen_history(rng, n):
-    return [gen_op(rng, i) for i in range(n)]
+    ops = []
+    while len(ops) < n:
+        o = gen_op(rng, len(ops))
+        ops.append(o)
+        if len(ops) < n and rng.random() < 0.5:
+            t = permuted_twin(rng, o)
+            if t is not None:
+                ops.append(t)
+    return ops
 
 
 def exhaustive_pool():
-    """12 operations; references are relative (resolved when the history is laid out)"""
+    """13 operations; references are relative (resolved when the history is laid out)"""
     od = lambda items: ["d", items, True]
     return [
         dict(k="obtain", u=["s", "m"], c=["s", "length"], cap=None, via="obtain"),
@@ -212,6 +239,7 @@ def exhaustive_pool():
         dict(k="new", div=True, a=-1, b=-1, x=1, lvl="alist", sy="/"),
         dict(k="same", a=-1, b="e", x=0, lvl="anp", sy="+"),
         dict(k="pickle", q=-1, proto=2),
+        dict(k="derived", items=[["time", "s", -1, False], ["length", "m", 2, False]], cap=None),   # pool[4] permuted
     ]
 
 
@@ -291,6 +319,69 @@ def case_key(c):
 
 def show(c):
     return dict(history=c["_t"]["ops"])
+
+
+# ------------------------------------------------------------- what a creation request asks for
+LEGACY_SPELLINGS = ["1000ft3", "1000m3", "M(ft3)", "M(m3)", "k(ft3)", "Ns/m", "lbmole", "gmole"]
+
+
+def _od_cells(pairs):
+    """[(category, unit, exp)] of OrderedDict(pairs) (a repeated category keeps its first position, last value)"""
+    return [(c, ue[0], ue[1]) for c, ue in OrderedDict((c, (u, e)) for c, u, e in pairs).items()]
+
+
+def expected_of(o, source_caption=None):
+    """What a successful creation request must return, computed from the request alone (never from
+    library output): dict(cells=[(category, unit, exp)] in the requested order | None, cat=..|None,
+    unit=..|None, derived=bool, cap=str).  None = this request form carries no expectation."""
+    k = o["k"]
+    if k == "obtain":
+        u, c, cap = o["u"], o["c"], o["cap"] or ""
+        if u is not None and u[0] == "d":
+            cells = _od_cells([(it[0], it[1], it[2]) for it in u[1]])
+        elif u is not None and u[0] == "l":
+            items = [(p[0], p[1]) for p in u[1]]
+            if len(items) == 1 and items[0][1] == 1:
+                cat = c[1][0] if (c is not None and c[0] == "q" and c[1]) else (c[1] if c is not None and c[0] == "s" else None)
+                return dict(cells=None, cat=cat, unit=items[0][0], derived=False, cap=cap)
+            if c is None or c[0] != "q":
+                return None
+            cells = _od_cells([(cc, un, e) for cc, (un, e) in zip(c[1], items)])
+        elif u is not None and u[0] == "s":
+            return dict(cells=None, cat=c[1] if (c is not None and c[0] == "s") else None, unit=u[1], derived=False, cap=cap)
+        else:
+            return dict(cells=None, cat=c[1] if (c is not None and c[0] == "s") else None, unit=None, derived=False, cap=cap)
+    elif k == "derived":
+        cells, cap = _od_cells([(it[0], it[1], it[2]) for it in o["items"]]), o["cap"] or ""
+    elif k == "mkcopy":
+        cells, cap = _od_cells([(it[0], it[1], it[2]) for it in o["items"]]), source_caption or ""
+    else:
+        return None
+    if len(cells) == 1 and cells[0][2] == 1:      # "although passed as composing, it's a simple case"
+        return dict(cells=None, cat=cells[0][0], unit=cells[0][1], derived=False, cap=cap)
+    return dict(cells=cells, cat=None, unit=None, derived=True, cap=cap)
+
+
+def mismatch(q, want):
+    """why the quantity is not what the request asked for (None = it is)"""
+    got = [c[:3] for c in _cells(q)]
+    if (q.GetUnknownCaption() or "") != want["cap"]:
+        return "caption %r, requested %r" % (q.GetUnknownCaption(), want["cap"])
+    if bool(q.IsDerived()) != want["derived"]:
+        return "IsDerived() is %r" % (q.IsDerived(),)
+    if want["cells"] is not None:
+        if got != [tuple(c) for c in want["cells"]]:
+            return "composing map %r, requested %r (in this order)" % (got, want["cells"])
+        if q.GetComposingCategories() != tuple(c[0] for c in want["cells"]):
+            return "composing categories %r not the requested ones" % (q.GetComposingCategories(),)
+        if q.GetComposingUnits() != tuple((c[1], c[2]) for c in want["cells"]):
+            return "composing units %r not the requested ones" % (q.GetComposingUnits(),)
+        return None
+    if want["cat"] is not None and q.GetCategory() != want["cat"]:
+        return "category %r, requested %r" % (q.GetCategory(), want["cat"])
+    if want["unit"] is not None and q.GetUnit() != want["unit"] and not any(l in want["unit"] for l in LEGACY_SPELLINGS):
+        return "unit %r, requested %r" % (q.GetUnit(), want["unit"])
+    return None
 
 
 # ------------------------------------------------------------------------------------------ real code
@@ -378,7 +469,7 @@ class Run:
         self.cache = []          # (key, identity index) in insertion order
         self.results = []        # per step: identity index or None
         self.requests = {}       # canonical request -> identity index of the object it returned
-        self.req_caps = []       # (requested caption or "", identity index) of the successful creation requests
+        self.req_sigs = []       # ((caption, composing cells | None), identity index) of the successful creation requests
         self.viol = []
         self.notes = {}
 
@@ -674,17 +765,29 @@ class Run:
                             self.bad(step, "the same request repeated returns the identical object", request=o,
                                      first=self.requests[rk], now=r[1])
                         self.requests.setdefault(rk, r[1])
-                    if o["k"] in ("obtain", "derived"):
-                        # requests that resolve to different captions must return unequal quantities
-                        want = o["cap"] or ""
-                        for cap0, i0 in self.req_caps:
-                            if cap0 != want and (i0 == r[1] or self.known[i0] == q):
-                                self.bad(step, "requests that resolve to different captions return unequal quantities",
-                                         request=o, caption_requested=want, earlier_caption=cap0,
-                                         returned=repr(q), returned_caption=q.GetUnknownCaption())
-                                break
-                        if (want, r[1]) not in self.req_caps:
-                            self.req_caps.append((want, r[1]))
+                    if o["k"] in ("obtain", "derived", "mkcopy"):
+                        src = None
+                        if o["k"] == "mkcopy":
+                            src = self.known[self.results[o["q"]]].GetUnknownCaption()
+                        want = expected_of(o, src)
+                        if want is not None:
+                            # the returned quantity IS what was requested
+                            why = mismatch(q, want)
+                            if why:
+                                self.bad(step, "a creation request returns the quantity that was requested", request=o,
+                                         returned=repr(q), difference=why)
+                            # requests that resolve differently (other caption, other composing map - also
+                            # the same entries in another order) must return unequal quantities
+                            sig = (want["cap"], None if want["cells"] is None else tuple(map(tuple, want["cells"])))
+                            for sig0, i0 in self.req_sigs:
+                                differs = sig0[0] != sig[0] or (sig0[1] is not None and sig[1] is not None and sig0[1] != sig[1])
+                                if differs and (i0 == r[1] or self.known[i0] == q):
+                                    self.bad(step, "requests that resolve differently return unequal quantities",
+                                             request=o, resolves_to=repr(sig), earlier_request_resolved_to=repr(sig0),
+                                             returned=repr(q), same_object=(i0 == r[1]))
+                                    break
+                            if (sig, r[1]) not in self.req_sigs:
+                                self.req_sigs.append((sig, r[1]))
                 else:
                     self.results.append(None)
                 ob["r"] = r
